@@ -2,7 +2,7 @@ SPECIFICATION Spec
 CONSTANTS
   Part = "slice"
   MaxLen = 4
-  VMag = 4
+  VMag = 3
   Mixed = FALSE
   Dump = TRUE
 INVARIANT ImplAgreesOffHazards
